@@ -27,6 +27,7 @@ TRUSTED = [
     "hooks /repo/nsqd/verif_c04.go and /repo/verifshim/pqueue.go (build tag verif): wrappers that call the real queue/channel functions, dump arrays and maps, run the scan functions with a given t, and move deliveryTS into the past",
     "queueScanLoop: the index selection util.UniqRands is modelled (ScanPick.v; theorem: with <= QueueScanSelectionCount channels every tick hands every channel to a worker, for every random stream); "
     "the ticker, the worker pool, the dirty-percentage repeat loop and the cached channel list (refreshed every QueueScanRefreshInterval) are NOT modelled: scans are events with a given t",
+    "sub-operation models model/TouchScan.v and model/ScanRound.v (DESIGN 10.9): inFlightMutex is modelled as one atomic step per critical section; deadlines are abstracted to their comparison with the scan's clock; one message / one round / one TOUCH is the bound of the interleaving theorem; the pattern proofs/TouchScanSrc.v reads off the regenerated skeleton is what says the model still describes processInFlightQueue and TouchMessage",
 ]
 ASSUMPTIONS = [
     "each mutex-protected section of channel.go is atomic and the (map, heap) pair is updated as one step (C04 'partial'; the fine-grained interleavings belong to C02/C08)",
@@ -45,6 +46,7 @@ LEVEL_TEXT = ("Machine-checked proof (Coq 8.16.1, no axioms) over exact executab
               "with their maps, no panic; every reachable in-flight deadline <= deliveryTS+max; a scan releases exactly the due messages); and a tick of queueScanLoop selects distinct channels, all of "
               "them when there are at most QueueScanSelectionCount. Tied to the source by "
               "constants regenerated from nsqd/options.go and by differential correspondence on the real queues, real channels and a live nsqd on every run.")
+LEVEL_TEXT = LEVEL_TEXT + ' Sub-operation models: one TOUCH against one round of the timeout scan over the same message, statement by statement, in EVERY interleaving (model/TouchScan.v: C04_touch_vs_scan_every_interleaving, the scan without the re-read refuted), and one whole round over the queue (model/ScanRound.v: stale entries do not delay the due messages behind them); both stated for the scan the CURRENT source has (proofs/TouchScanSrc.v).'
 LEVEL_NOTE = ("Trusted: Coq kernel + vm_compute; hand-written models (compared with the real code after every operation, sampled); gotables constants; the verif hooks. "
               "Partial: wall-clock behaviour (which channels a tick scans, scheduling delay between deadline and scan) is not modelled -- scans are events with a given t; "
               "mutex atomicity assumed. Known finding K9 (known_findings.json, replayed on every run by five cases on a third nsqd configured with max-req-timeout = MaxInt64 ns, tag kf=K9): "
